@@ -947,6 +947,10 @@ def collect_globals():
             for name in used:
                 e = analyse(fn, ("name", name))
                 reasons = e.mutated + closure_reasons(e)
+                gc = enclosing_class(fn)
+                for a in e.stored_attrs:   # self.x = MODULE_LEVEL_OBJECT ; self.x[k] = v elsewhere
+                    if gc is not None:
+                        reasons += ["stored as self.%s, then %s" % (a, r) for r in attr_mutations(gc, a)]
                 if name in fnames:
                     reasons = [r for r in e.mutated if r.startswith("attribute assigned")]
                 if reasons:
@@ -1059,32 +1063,136 @@ def collect_entry_defaults(defaults):
                     if nm in ENTRY_FUNCS and nm in lo.funcs:
                         sites.append({"caller": m.name + ":" + fn.qual, "callee": nm, "already_included": ai_arg(n, lo.funcs[nm])})
     res["calls"] = sites
-    expect = {("neuroml.loaders:read_neuroml2_file", "_read_neuroml2"): "param",
-              ("neuroml.loaders:read_neuroml2_string", "_read_neuroml2"): "param",
-              ("neuroml.loaders:_read_neuroml2", "read_neuroml2_file"): "param",
-              ("neuroml.hdf5.NeuroMLHdf5Parser:NeuroMLHdf5Parser.parse", "read_neuroml2_string"): "omitted",
-              ("neuroml.hdf5.NeuroMLXMLParser:NeuroMLXMLParser.parse", "read_neuroml2_file"): "fresh"}
-    got = {(s["caller"], s["callee"]): s["already_included"] for s in sites}
+    got = {}
+    for st in sites:
+        got.setdefault((st["caller"], st["callee"]), set()).add(st["already_included"])
+    expect = {("neuroml.loaders:read_neuroml2_file", "_read_neuroml2"): {"param"},
+              ("neuroml.loaders:read_neuroml2_string", "_read_neuroml2"): {"param"},
+              ("neuroml.loaders:_read_neuroml2", "read_neuroml2_file"): {"param"},
+              ("neuroml.hdf5.NeuroMLXMLParser:NeuroMLXMLParser.parse", "read_neuroml2_file"): {"fresh"}}
     for k, v in expect.items():
         if got.get(k) != v:
             untrans(k[0].split(":")[0], k[0].split(":")[1],
-                    "call of %s passes already_included as %r (the loader model expects %r)" % (k[1], got.get(k), v))
-    res["h5_parse_omits"] = got.get(("neuroml.hdf5.NeuroMLHdf5Parser:NeuroMLHdf5Parser.parse", "read_neuroml2_string")) == "omitted"
-    # the include loop of _read_neuroml2: load before append (the order matters to the model)
-    fn = lo.funcs.get("_read_neuroml2")
-    order_ok = False
-    if fn is not None:
-        for n in ast.walk(fn.node):
-            if isinstance(n, ast.If) and "endswith('.nml')" in ast.unparse(n.test):
-                src = [ast.unparse(s) for s in n.body]
-                if len(src) >= 3 and src[0].startswith("nml2_sub_doc = read_neuroml2_file(") \
-                        and src[1] == "already_included.append(incl_loc)" \
-                        and src[2].replace("utils.", "") == "add_all_to_document(nml2_sub_doc, nml2_doc)":
-                    order_ok = True
-    res["include_loop_shape_ok"] = order_ok
-    if not order_ok:
-        untrans("neuroml.loaders", "_read_neuroml2", "include loop is not `load; already_included.append; add_all_to_document`")
+                    "call of %s passes already_included as %r (the loader model expects %r)" % (k[1], sorted(got.get(k, [])), sorted(v)))
+    res["shape"] = loader_shape(lo, got)
     return res
+
+
+def loader_shape(lo, got):
+    """the three places where versions of loaders.py differ (State.lshape)"""
+    shape = {"mark_entry": False, "append_first": False, "h5_threads": False}
+    fn = lo.funcs.get("_read_neuroml2")
+    if fn is None:
+        return shape
+    fn.set_parents()
+
+    def in_for(n):
+        while n is not None:
+            if isinstance(n, (ast.For, ast.While)):
+                return True
+            n = getattr(n, "_parent", None)
+        return False
+
+    appends = [n for n in fn.all_nodes() if isinstance(n, ast.Call) and ast.unparse(n.func) == "already_included.append"]
+    outside = [n for n in appends if not in_for(n)]
+    # --- entry marking
+    for n in outside:
+        stmt = n._parent
+        iff = getattr(stmt, "_parent", None)
+        arg = ast.unparse(n.args[0]) if n.args else "?"
+        ok = isinstance(stmt, ast.Expr) and isinstance(iff, ast.If) and ast.unparse(iff.test) == "%s not in already_included" % arg \
+            and len(iff.body) == 1 and not iff.orelse
+        src_ok = False
+        if ok:
+            for m in fn.all_nodes():
+                if isinstance(m, ast.Assign) and len(m.targets) == 1 and ast.unparse(m.targets[0]) == arg \
+                        and ast.unparse(m.value) == "os.path.abspath(%s)" % fn.pos[0]:
+                    src_ok = True
+        if ok and src_ok and len(outside) == 1:
+            shape["mark_entry"] = True
+        else:
+            untrans("neuroml.loaders", "_read_neuroml2", "already_included.append outside the include loop of an unknown shape: "
+                    + ast.unparse(stmt)[:60])
+    # --- order inside the include loop
+    orders = []
+    for n in fn.all_nodes():
+        if isinstance(n, ast.If) and ("endswith('.nml')" in ast.unparse(n.test) or "endswith('.nml.h5')" in ast.unparse(n.test)) \
+                and in_for(n):
+            seq = []
+            for st in n.body:
+                u = ast.unparse(st)
+                if u == "already_included.append(incl_loc)":
+                    seq.append("append")
+                elif u.startswith("nml2_sub_doc = read_neuroml2_file(") or u.startswith("nml2_sub_doc = NeuroMLHdf5Loader.load("):
+                    seq.append("load")
+                elif u.replace("utils.", "") == "add_all_to_document(nml2_sub_doc, nml2_doc)":
+                    seq.append("add_all")
+                elif u.startswith("print_method("):
+                    continue
+                else:
+                    seq.append("other:" + u[:40])
+            orders.append(seq)
+    if len(orders) == 2 and all(o == ["load", "append", "add_all"] for o in orders):
+        shape["append_first"] = False
+    elif len(orders) == 2 and all(o == ["append", "load", "add_all"] for o in orders):
+        shape["append_first"] = True
+    else:
+        untrans("neuroml.loaders", "_read_neuroml2", "include loop branches are not {load, append, add_all} in one common order: %r" % orders)
+    # --- does the HDF5 path hand already_included on to the read of the embedded XML?
+    parse_arg = got.get(("neuroml.hdf5.NeuroMLHdf5Parser:NeuroMLHdf5Parser.parse", "read_neuroml2_string"))
+    h5_calls = [n for n in fn.all_nodes() if isinstance(n, ast.Call) and ast.unparse(n.func) == "NeuroMLHdf5Loader.load"]
+    passed = [any(k.arg == "already_included" and ast.unparse(k.value) == "already_included" for k in c.keywords) for c in h5_calls]
+    chain = True
+    hl = lo.classes.get("NeuroMLHdf5Loader")
+    pm = W.mods.get("neuroml.hdf5.NeuroMLHdf5Parser")
+    pc = pm.classes.get("NeuroMLHdf5Parser") if pm else None
+    if hl is None or pc is None or "parse" not in pc.methods:
+        chain = False
+    else:
+        parse = pc.methods["parse"]
+        chain = chain and "already_included" in parse.params and isinstance(parse.defaults.get("already_included"), ast.Constant) \
+            and any(isinstance(st, ast.If) and ast.unparse(st.test) == "already_included is None"
+                    and [ast.unparse(x) for x in st.body] == ["already_included = []"] for st in parse.node.body)
+        for mname, callee in (("load", "__nml2_doc"), ("__nml2_doc", "parse")):
+            mfn = hl.methods.get(mname)
+            calls = [n for n in (mfn.all_nodes() if mfn else []) if isinstance(n, ast.Call) and isinstance(n.func, ast.Attribute)
+                     and n.func.attr.endswith(callee)]
+            if not calls or not all("already_included" in [ast.unparse(a) for a in c.args] + [ast.unparse(k.value) for k in c.keywords
+                                                                                            if k.arg == "already_included"] for c in calls):
+                chain = False
+    if parse_arg == {"param"} and h5_calls and all(passed) and chain:
+        shape["h5_threads"] = True
+    elif parse_arg == {"omitted"} and not any(passed):
+        shape["h5_threads"] = False
+    else:
+        untrans("neuroml.loaders", "_read_neuroml2", "already_included is handed to the HDF5 loader/parser only in part "
+                "(parse -> read_neuroml2_string: %r, loads: %r, chain: %r)" % (sorted(parse_arg or []), passed, chain))
+    return shape
+
+
+def builder_shape():
+    """version differences of NetworkBuilder.handle_connection the builder model is parametrised by"""
+    out = {"elec_weight_guard": False}
+    m = W.mods.get("neuroml.hdf5.NetworkBuilder")
+    c = m.classes.get("NetworkBuilder") if m else None
+    fn = c.methods.get("handle_connection") if c else None
+    if fn is None:
+        untrans("neuroml.hdf5.NetworkBuilder", "NetworkBuilder.handle_connection", "not found")
+        return out
+    found = False
+    for n in fn.all_nodes():
+        if isinstance(n, ast.If) and "ElectricalProjection" in ast.unparse(n.test) and "isinstance" in ast.unparse(n.test):
+            for k in n.body:
+                if isinstance(k, ast.If) and ast.unparse(k.test) == "not instances":
+                    found = True
+                    first = k.body[0]
+                    if isinstance(first, ast.If) and ast.unparse(first.test) == "weight != 1" and len(first.body) == 1 \
+                            and isinstance(first.body[0], ast.Raise):
+                        out["elec_weight_guard"] = True
+            break
+    if not found:
+        untrans("neuroml.hdf5.NetworkBuilder", "NetworkBuilder.handle_connection", "electrical branch `if not instances:` not found")
+    return out
 
 
 # --------------------------------------------------------------------------------------- main
@@ -1107,6 +1215,7 @@ def main():
     fields = collect_fields()
     globs, ext = collect_globals()
     entry = collect_entry_defaults(defaults) if "neuroml.loaders" in W.mods else {}
+    bshape = builder_shape()
     seen = set()
     uniq = []
     for u in untranslatable:
@@ -1115,7 +1224,7 @@ def main():
             seen.add(k)
             uniq.append(u)
     doc = {"defaults": defaults, "fields": fields, "globals": globs, "external_state_calls": ext,
-           "entry_defaults": entry, "untranslatable": uniq,
+           "entry_defaults": entry, "builder_shape": bshape, "untranslatable": uniq,
            "modules": sorted(W.mods), "functions_scanned": sum(len(m.all_fns) for m in W.mods.values())}
     print(json.dumps(doc))
 
